@@ -15,7 +15,7 @@ REPO = os.environ.get('PYPOSE_REPO', '/repo')
 
 DROPS = [
     "import statements are resolved to the storch model (torch, torch.nn, torch.linalg, ...) or to sibling extracted modules",
-    "float literals are read as exact decimal rationals (AST Constant rewrite only)",
+    "float literals are read as exact decimal rationals (AST Constant rewrite only); a Python float produced at run time by int/int division of literals is read as the simplest rational that rounds to it (1/3, not 0.333...)",
     "torch.autograd.Function.apply = forward + setup_context (autograd engine not modelled); generate_vmap_rule, requires_grad, device, dtype, layout ignored",
     "torch.finfo(dtype).eps is one symbol eps with 0 < eps <= 2^-10 (covers float32 and float64)",
     "@torch.no_grad / enable_grad / jit.script decorators are no-ops",
@@ -36,8 +36,7 @@ class _FloatRewriter(ast.NodeTransformer):
 
 
 def _Qconst(s):
-    q = Q(s)
-    return q.numerator if q.denominator == 1 else q
+    return Q(s)
 
 
 class Loader:
